@@ -152,10 +152,11 @@ def main():
         import time as _t
         for o in prop.child_ops(tier):
             t1 = _t.time()
-            out, rc, dtc = R.run_side(R.HBIN, [o['op']], timeout=120)
+            out, rc, dtc = R.run_side(R.HBIN, [o['op']], timeout=o['meta'].get('timeout', 120))
             a = out[0] if (out and rc == 0 and len(out) == 1) else ('abort' if out is not None else 'timeout')
             o['meta']['wall'] = round(dtc, 2); o['meta']['rc'] = rc
             ops.append(o); impl.append(a); model.append(None)
+    post_failures = prop.post(ops, impl) if (hasattr(prop, 'post') and not args.replay) else []
     known = load_known()
     kf = [f for f in known.get('findings', []) if f['property'] == pid]
     failures = []     # cases failing the property (implementation-level predicate or in-projection disagreement)
@@ -170,6 +171,7 @@ def main():
         if v is None: continue
         case = dict(op=o['op'], meta=o.get('meta', {}), impl=a, model=b, why=v[1])
         (failures if v[0] == 'fail' else drift).append(case)
+    failures += post_failures
     # 5. known findings: partition failures
     fresh = []
     seen_known = {}
